@@ -88,10 +88,36 @@ fn o_split(s: &[u32]) -> Option<(&[u32], &[u32])> {
 
 fn ns_position(m: &MMappings, name: &[u32]) -> Option<usize> { m.ns.iter().position(|n| n == name) }
 
-/// None = must fail
+/// What the property demands of `extend_inner_class_names`.
+enum WantExt {
+	/// exactly this answer (None = must fail)
+	Must(Option<MMappings>),
+	/// the FIRST namespace on a set without classes: the property only speaks of a target namespace at a
+	/// non-first index.  The code at present answers Ok(unchanged); refusing it (as `contract` does since
+	/// 4d8ec0a) would be just as good.  Accepted: Err, or Ok(the input unchanged).
+	FirstNamespaceNoClasses,
+}
+impl WantExt {
+	fn accepts(&self, got: &Option<MMappings>, input: &MMappings) -> bool {
+		match self { WantExt::Must(w) => got == w, WantExt::FirstNamespaceNoClasses => got.as_ref().map_or(true, |g| g == input) }
+	}
+	/// the reference answer to print in a replay
+	fn shown(&self, input: &MMappings) -> String {
+		match self { WantExt::Must(w) => show_answer(w), WantExt::FirstNamespaceNoClasses => format!("Err, or unchanged:\n{}", show_mappings(input)) }
+	}
+}
+fn want_extend(m: &MMappings, name: &[u32]) -> WantExt {
+	match ns_position(m, name) {
+		// the names of the first namespace are the map keys: with classes present the call must fail rather than guess
+		Some(0) => if m.classes.is_empty() { WantExt::FirstNamespaceNoClasses } else { WantExt::Must(None) },
+		_ => WantExt::Must(ref_extend(m, name)),
+	}
+}
+
+/// None = must fail  (target namespace at a non-first index; the first namespace is decided by `want_extend`)
 fn ref_extend(m: &MMappings, name: &[u32]) -> Option<MMappings> {
 	let ns = ns_position(m, name)?;
-	if ns == 0 { return if m.classes.is_empty() { Some(m.clone()) } else { None }; }
+	if ns == 0 { return None; }
 	let mut index: HashMap<&[u32], Option<&S>> = HashMap::new();
 	for c in &m.classes {
 		if let Some(Some(k)) = c.names.first() { index.entry(k.as_slice()).or_insert(c.names.get(ns).and_then(|o| o.as_ref())); }
@@ -218,19 +244,21 @@ fn through(r: &mut Report, seen: &mut Seen, stream: &str, m: &MMappings, name: &
 	for d in &out.desync { r.violation(format!("IndexMap key out of sync with node info after the call: {d}"), replay("after extend/contract the map key of a class differs from the first-namespace name stored in its node", m, name, "")); }
 
 	// ---- extend ----
-	let want = ref_extend(m, name);
+	let want = want_extend(m, name);
+	if matches!(want, WantExt::FirstNamespaceNoClasses) { r.count("extend:first namespace on a set without classes (unspecified by the property: Err and Ok-unchanged both accepted)"); }
 	let mut ext_col: Option<Option<Vec<Option<S>>>> = None; // Some(None) = Err
 	match &out.extend {
 		Err(p) => r.violation(format!("extend_inner_class_names panicked: {p}"), replay("panic in extend_inner_class_names", m, name, "")),
 		Ok(got) => {
 			r.count(if got.is_some() { "extend:ok" } else { "extend:err" });
-			if *got != want {
+			if !want.accepts(got, m) {
 				let what = match (got, &want) {
-					(None, Some(_)) => "extend_inner_class_names failed although every outer class is present and named",
-					(Some(_), None) => "extend_inner_class_names succeeded although an outer class is missing or unnamed (or the namespace is the first / unknown)",
+					(None, WantExt::Must(Some(_))) => "extend_inner_class_names failed although every outer class is present and named",
+					(Some(_), WantExt::Must(None)) => "extend_inner_class_names succeeded although an outer class is missing or unnamed (or the namespace is the first, with classes present, or unknown)",
+					(Some(_), WantExt::FirstNamespaceNoClasses) => "extend_inner_class_names(<first namespace>) on a set without classes changed the set",
 					_ => "extend_inner_class_names result differs from the reference extension (something other than the stated rewrite changed, or the rewrite is wrong)",
 				};
-				r.violation(what.into(), replay(what, m, name, &format!("implementation:\n{}reference:\n{}", show_answer(got), show_answer(&want))));
+				r.violation(what.into(), replay(what, m, name, &format!("implementation:\n{}reference:\n{}", show_answer(got), want.shown(m))));
 			}
 			ext_col = match (got, ns) { (None, _) => Some(None), (Some(g), Some(ns)) => column_of(m, ns, g).map(Some), (Some(_), None) => None };
 			if full || ext_col.is_none() { r.case(stream, format!("CExtend {} {} {}", g_mappings(m), gstr(name), gres(got.as_ref().map(g_mappings)))); }
@@ -420,7 +448,7 @@ pub fn run(ctx: &Ctx) -> anyhow::Result<Report> {
 	r.shard_size = 120;
 	let mut rng = Rng::new(ctx.seed);
 	let mut seen = Seen::default();
-	r.rule = "Mapping sets with 1..5 namespaces (mostly 2..4), target namespace at every index (non-first for the valid streams), source names forming forests of $-nested classes of depth 0..4 (deeper in the exhaustive chain), outer classes in packages, absent names in every non-first namespace, with and without members/comments, classes in shuffled insertion order. Streams: exhaustive (every sub-chain of A, A$B, .. A$B$C$D$E x every assignment of {absent, simple, package+dollar name} to the second namespace), ok (all hypotheses), broken (an outer class removed or unnamed), nonsimple (simple_names violated), weird-src (source names with misplaced $ and /), ns0 (first namespace), unknown-ns / duplicate namespace names, n1 (one namespace), mapmodel (shared generator, names with packages), fixture (the repository's test). Oracle on the implementation: independent iterative reference extension and contraction, failure iff the reference fails, contract(extend(M)) == M whenever simple_names holds, IndexMap keys still in sync. An input is non-trivial when at least one class with a nested source name has a name in the target namespace; distinct by (namespace, canonical Gallina text).".into();
+	r.rule = "Mapping sets with 1..5 namespaces (mostly 2..4), target namespace at every index (non-first for the valid streams), source names forming forests of $-nested classes of depth 0..4 (deeper in the exhaustive chain), outer classes in packages, absent names in every non-first namespace, with and without members/comments, classes in shuffled insertion order. Streams: exhaustive (every sub-chain of A, A$B, .. A$B$C$D$E x every assignment of {absent, simple, package+dollar name} to the second namespace), ok (all hypotheses), broken (an outer class removed or unnamed), nonsimple (simple_names violated), weird-src (source names with misplaced $ and /), ns0 (first namespace), unknown-ns / duplicate namespace names, n1 (one namespace), mapmodel (shared generator, names with packages), fixture (the repository's test). Oracle on the implementation: independent iterative reference extension and contraction, failure iff the reference fails (extend on the FIRST namespace: must fail when there are classes; on a set without classes Err and Ok-unchanged are both accepted — outside the property's quantifier), contract(extend(M)) == M whenever simple_names holds, IndexMap keys still in sync. An input is non-trivial when at least one class with a nested source name has a name in the target namespace; distinct by (namespace, canonical Gallina text).".into();
 
 	r.notes.push("contract_inner_class_names on the FIRST namespace used to rewrite the node names and leave the IndexMap keys stale (found by the key-sync oracle of this harness on the repository's own fixture); repaired by /repo commit 4d8ec0a (`fix: contract_inner_class_names refuses the first namespace`), the model follows the repaired code; the ns0 stream re-checks it on every run".into());
 	r.notes.push("correspondence cases are sent in compact form (CRun): the harness verifies cell by cell that the implementation's result is the input with only the chosen namespace column of the class rows replaced, sends that column, and Coq rebuilds the full mapping set and compares it in full with the model's result; every 8th-10th input and every input where that verification fails is sent in full (CExtend/CContract)".into());
